@@ -51,6 +51,17 @@ def cases(tier):
             continue
         for j in range(2 if q else 4):
             out.append({"kind": "convex", "pts": S, "pl": pq[(i + 3 * j + 1) % 8], "cls": "ConvexPolyhedron" if (i + j) % 2 else "Polyhedron"})
+    # "far from the origin": ~2e7 diameters away (membership of the margin-filtered points stays well conditioned)
+    far = [A.placement("L5", "s1", "tfar"), A.placement("q1234", "s1", "tfar"), A.placement("I", "s2^-10", "tfar")]
+    for i, S in enumerate(s4):
+        if i % (9 if q else 3) == 0:
+            out.append({"kind": "convex", "pts": S, "pl": far[(i // 3) % 3], "cls": "ConvexPolyhedron" if (i // 9) % 2 == 0 else "Polyhedron"})
+    for i, S in enumerate(s4):
+        if i % (72 if q else 12) == 0:
+            for r in ("1/20", "1/2"):
+                out.append({"kind": "sphero", "pts": S, "r": r, "pl": far[(i // 12) % 3]})
+    for i in range(0, len(A.vox((2, 2, 2))), 7 if q else 2):
+        out.append({"kind": "vox", "box": [2, 2, 2], "i": i, "pl": far[i % 3]})
     boxes = [(2, 2, 2), (3, 3, 1)] + ([] if q else [(3, 2, 2)])
     for box in boxes:
         for i in range(len(A.vox(box))):
